@@ -1,9 +1,10 @@
 """C09 — try/except/else/finally and with: which clause's code lands in which field, for every raise point at once."""
 CANON = True
+STRICT = {"TRY-EXCVAR", "TRY-ELSE", "WITH-TEMP"}
 
 import ast
 
-from .. import compq, idflow, placement, pyq
+from .. import boolfn, compq, idflow, placement, pyq
 from ..pysrc import dotted, norm
 from .c01 import check_rtemp
 
@@ -33,10 +34,11 @@ def check(ctx, src):
     fold = pyq.contains(t, lambda n: isinstance(n, ast.AugAssign) and norm(n.target) == "body" and isinstance(n.value, ast.Call) and dotted(n.value.func) in ("list", "tuple") and "orelse" in norm(n.value))
     ctx.need(fold is not None, "compile_try_expression: the else-into-body fold was not found")
     g = fold._parent
-    ok = isinstance(g, ast.If) and "not catchers" in norm(g.test) and "orelse is not None" in norm(g.test)
-    ctx.check(ok, "TRY-ELSE", f"{R}|compile_try_expression|fold-guard", f"else forms are appended to the body under `{norm(g.test) if isinstance(g, ast.If) else None}`; "
-              "they must only be folded in when there are no except clauses, otherwise an exception raised in else is caught by this try's own handlers",
-              R, fold.lineno, witness="(try 1 (except [ValueError] \"caught\") (else (raise (ValueError))))", detail=norm(g.test) if isinstance(g, ast.If) else "")
+    AT = boolfn.Atoms(O="orelse is None", C="catchers")
+    v, why = boolfn.decide([fold], t, AT, lambda e: (not e["O"]) and not e["C"], must_depend_on=("C",))
+    ctx.decide("TRY-ELSE", f"{R}|compile_try_expression|fold-guard", v, f"else forms are appended to the body under another condition than `else present and no except clause` ({why}); "
+               "otherwise an exception raised in else is caught by this try's own handlers", R, fold.lineno,
+               witness="(try 1 (except [ValueError] \"caught\") (else (raise (ValueError))))", detail="orelse is not None and not catchers")
     reset = isinstance(g, ast.If) and any(norm(s) == "orelse = None" for s in g.body)
     ctx.check(reset, "TRY-ELSE", f"{R}|compile_try_expression|fold-reset", "after folding, orelse must be cleared (else the forms run twice)", R, fold.lineno, detail="orelse = None")
 
@@ -75,7 +77,7 @@ def check(ctx, src):
     ctx.need(loop is not None, "compile_try_expression: handler loop not found")
     w = next((n for n in ast.walk(loop) if isinstance(n, ast.With) and any("scope.create(ScopeLet)" in norm(i.context_expr) for i in n.items)), None)
     outside = [n for n in pyq.walk_no_nested(t) if isinstance(n, (ast.With, ast.Assign)) and "scope.create(ScopeLet)" in norm(n) and not any(n is x for x in ast.walk(loop))]
-    ctx.check(w is not None and not outside, "TRY-EXCVAR", f"{R}|compile_try_expression|scope-per-handler",
+    ctx.decide("TRY-EXCVAR", f"{R}|compile_try_expression|scope-per-handler", w is not None and not outside,
               "the ScopeLet for the except variable is not created afresh inside the handler loop: one handler's renaming stays active in later handlers",
               R, loop.lineno, witness="(try … (except [e KeyError] …) (except [ValueError] (print e))) : `e` of the outer scope is renamed to the hidden variable of the first handler",
               detail="with compiler.scope.create(ScopeLet) inside the loop")
@@ -109,22 +111,34 @@ def check(ctx, src):
     ret0 = pyq.contains(wf, lambda n: isinstance(n, ast.Assign) and norm(n.targets[0]) == "ret" and norm(n.value) == "Result(stmts=[initial_assign])")
     ok = init is not None and _is_assign_to(init.value, "name") and "asty.Constant(expr, value=None)" in norm(init.value) and ret0 is not None
     ctx.check(ok, "WITH-TEMP", f"{R}|compile_with_expression|init-none", "the temporary is not initialised to None as the first emitted statement", R, wf.lineno,
-              witness="a with whose manager suppresses an exception leaves its result variable unbound: NameError instead of None", detail="ret = Result(stmts=[name = None])")
+              witness="a with whose manager suppresses an exception leaves its result variable unbound: NameError instead of None", detail="ret = Result(stmts=[name = None])", strict=False)
     store = [n for n in wf.body if isinstance(n, ast.AugAssign) and norm(n.target) == "cbody" and _is_assign_to(n.value, "name")]
     node_i = next((i for i, n in enumerate(wf.body) if isinstance(n, ast.AugAssign) and norm(n.target) == "ret" and "body=cbody.stmts" in norm(n.value)), None)
     ok = len(store) == 1 and node_i is not None and wf.body.index(store[0]) < node_i and "cbody.force_expr" in norm(store[0].value)
     ctx.check(ok, "WITH-TEMP", f"{R}|compile_with_expression|store-every-arm",
               "the body's value is not stored into the temporary unconditionally before the With is built: on the nested arms (statement-bearing later manager, mixed sync/async) the form returns None",
-              R, wf.lineno, witness="(with [a (nullcontext 1) b (do (setv z 0) (nullcontext 2))] (+ a b)) returns None", detail="cbody += Assign(name, cbody value) at top level")
+              R, wf.lineno, witness="(with [a (nullcontext 1) b (do (setv z 0) (nullcontext 2))] (+ a b)) returns None", detail="cbody += Assign(name, cbody value) at top level", strict=False)
     exposes = [n for n in ast.walk(wf) if (isinstance(n, ast.keyword) and n.arg == "temp_variables" and not (isinstance(n.value, (ast.List, ast.Tuple)) and not n.value.elts))
                or (isinstance(n, ast.Assign) and isinstance(n.targets[0], ast.Attribute) and n.targets[0].attr == "temp_variables" and not (isinstance(n.value, ast.List) and not n.value.elts))]
     ctx.decide("WITH-TEMP", f"{R}|compile_with_expression|not-renameable", not exposes,
                "with exposes its temporary for renaming although it initialises it before the managers are evaluated", R, wf.lineno,
                witness="(setv x 1) (setv x (with [c (f x)] ...)): the initial `x = None` clobbers x before (f x) is evaluated", detail="no temp_variables")
+    # a manager's own statements may be placed at the level of the `with` only for the first manager (later managers are
+    # evaluated after the earlier ones were entered); decided on the truth table of the conditions around `ret += ctx`
+    lp = next((n for n in pyq.walk_no_nested(wf) if isinstance(n, ast.For)), None)
+    if lp is not None and isinstance(lp.target, ast.Tuple) and len(lp.target.elts) == 2 and isinstance(lp.target.elts[0], ast.Name) and isinstance(lp.target.elts[1], ast.Tuple):
+        iv = lp.target.elts[0].id
+        mv = lp.target.elts[1].elts[-1].id if isinstance(lp.target.elts[1].elts[-1], ast.Name) else None
+        tops = [n for n in ast.walk(lp) if isinstance(n, ast.AugAssign) and isinstance(n.target, ast.Name) and isinstance(n.value, ast.Name) and n.value.id == mv]
+        ATW = boolfn.Atoms(Z=f"{iv} == 0", N=f"isinstance({mv}, Result)")
+        v, why = boolfn.decide(tops, wf, ATW, lambda e: e["Z"] and not e["N"], must_depend_on=("Z",), ignore=("was_async is None", "is_async != was_async", "is_async == was_async", "was_async is not None"))
+        ctx.decide("WITH-TEMP", f"{R}|compile_with_expression|first-manager-only", v, f"the statements of a manager expression are placed in front of the whole `with` under another condition than `first manager` ({why}): "
+                   "a later manager's statements then run before the earlier managers are entered", R, wf.lineno,
+                   witness="(with [_ (A) _ (do (side-effect) (B))] …): side-effect runs before A is entered and outside its protection", detail="ret += ctx only when i == 0")
     # nested arms recurse with the remaining managers and the same body, then break
     rec = [c for c in pyq.calls(wf) if dotted(c.func) == "compile_with_expression"]
     ctx.check(len(rec) == 2 and all(norm(c.args[-1]) == "body" for c in rec), "WITH-TEMP", f"{R}|compile_with_expression|nesting",
-              "the two nesting arms must recurse with the remaining managers and the whole body", R, wf.lineno, detail="2 recursive calls, body passed inward")
+              "the two nesting arms must recurse with the remaining managers and the whole body", R, wf.lineno, detail="2 recursive calls, body passed inward", strict=False)
     for c in rec:
         st = c
         while not isinstance(st, ast.stmt):
@@ -132,7 +146,7 @@ def check(ctx, src):
         sibs = st._parent.body
         nxt = sibs[sibs.index(st) + 1] if sibs.index(st) + 1 < len(sibs) else None
         ctx.check(isinstance(nxt, ast.Break), "WITH-TEMP", f"{R}|compile_with_expression|break-after-nest@{norm(c.args[3])[:30]}", "after starting a nested with, the loop must stop (else managers are entered twice)",
-                  R, c.lineno, detail="break")
+                  R, c.lineno, detail="break", strict=False)
     check_rtemp(ctx, comp)
     ctx.floor("TRY-RETVAR", 6)
 
